@@ -580,8 +580,8 @@ impl Monitor for M {
             Phase::new("enum", gen::enum_total())
                 .batch(64)
                 .exhaustive("every lig/kern program of <=2 rules from {|,a,b,x,-}x{a,b,-,|}x{kern,8 LIG forms inserting x}, every word of 2-4 letters over {a,b}, every set of hyphen positions, minimums (1,1)"),
-            Phase::new("cmr10", tier.pick(300_000, 6_000_000)).batch(64),
-            Phase::new("synthetic", tier.pick(600_000, 12_000_000)).batch(64),
+            Phase::new("cmr10", tier.pick(300_000, 20_000_000)).batch(64),
+            Phase::new("synthetic", tier.pick(600_000, 40_000_000)).batch(64),
         ]
     }
 
